@@ -205,3 +205,218 @@ Proof.
       * apply IG' in Eg'. apply Hl in Eg'. rewrite (IL c E Eg') in Eg. discriminate.
 Qed.
 End Colouring.
+
+(* ---- consequences for colour_loop ---- *)
+Lemma gamma0_range v1 vn cm cp c : gamma0 v1 vn cm cp c = Red \/ gamma0 v1 vn cm cp c = Grey.
+Proof. unfold gamma0. destruct (_ || _); auto. Qed.
+
+Lemma in_perm2_iff l a b : In (a, b) (perm2 l) <-> In a l /\ In b l /\ a <> b.
+Proof.
+  split; [|intros (Ha & Hb & Hne); now apply in_perm2].
+  unfold perm2. rewrite in_flat_map. intros (x & Hx & H). apply in_map_iff in H. destruct H as (y & E & Hy).
+  injection E as <- <-. apply filter_In in Hy. destruct Hy as (Hy & Hne). apply negb_true_iff, N.eqb_neq in Hne.
+  repeat split; auto.
+Qed.
+
+Theorem colour_loop_spec v1 vn alts (g0 : gamma) : (forall c, g0 c = Red \/ g0 c = Grey) ->
+  match colour_loop v1 vn alts g0 with
+  | None => conflict v1 vn g0 (perm2 alts)
+  | Some g => Inv v1 vn g0 (perm2 alts) g /\ ~ conflict v1 vn g0 (perm2 alts)
+  end.
+Proof.
+  intros Hg0. unfold colour_loop. pose proof (fold_spec v1 vn g0 Hg0 (perm2 alts) [] g0 (Inv_nil v1 vn g0 Hg0)) as H.
+  rewrite app_nil_l in H. revert H. destruct (fold_left (colour_step v1 vn) (perm2 alts) (Some g0)) as [g|]; intros H; [|exact H].
+  split; [exact H|]. eapply Inv_no_conflict; exact H.
+Qed.
+
+Lemma roles_perm v1 vn alts alts' : Permutation alts alts' ->
+  (forall c, lrole v1 vn (perm2 alts) c <-> lrole v1 vn (perm2 alts') c) /\
+  (forall c, rrole v1 vn (perm2 alts) c <-> rrole v1 vn (perm2 alts') c).
+Proof.
+  intros HP.
+  assert (Hin : forall a b, In (a, b) (perm2 alts) <-> In (a, b) (perm2 alts')).
+  { intros a b. rewrite !in_perm2_iff. split; intros (Ha & Hb & Hne); repeat split; auto;
+      eapply Permutation_in; try eassumption; now apply Permutation_sym. }
+  split; intros c; unfold lrole, rrole; split; intros (b & Hb & Hs); exists b; (split; [now apply Hin|assumption]).
+Qed.
+
+(* the colouring loop does not depend on the order in which C_set is iterated *)
+Theorem colour_loop_perm v1 vn alts alts' (g0 : gamma) : (forall c, g0 c = Red \/ g0 c = Grey) -> Permutation alts alts' ->
+  match colour_loop v1 vn alts g0, colour_loop v1 vn alts' g0 with
+  | Some g, Some g' => forall c, g c = g' c
+  | None, None => True
+  | _, _ => False
+  end.
+Proof.
+  intros Hg0 HP. destruct (roles_perm v1 vn alts alts' HP) as (Hl & Hr).
+  pose proof (colour_loop_spec v1 vn alts g0 Hg0) as H1. pose proof (colour_loop_spec v1 vn alts' g0 Hg0) as H2.
+  assert (Hc : conflict v1 vn g0 (perm2 alts) <-> conflict v1 vn g0 (perm2 alts')).
+  { unfold conflict. split; intros (c & Hc & Hlc & Hrc); exists c; (split; [assumption|]); split;
+      (apply Hl || apply Hr); assumption. }
+  destruct (colour_loop v1 vn alts g0) as [g|], (colour_loop v1 vn alts' g0) as [g'|]; try exact I.
+  - destruct H1 as (I1 & _), H2 as (I2 & _). eapply Inv_determined; eassumption.
+  - destruct H1 as (_ & N1). apply N1, Hc, H2.
+  - destruct H2 as (_ & N2). apply N2, Hc, H1.
+Qed.
+
+(* ============================================================================================== *)
+(* 2. left_of is a strict total order on the coloured alternatives                                  *)
+(* ============================================================================================== *)
+Section LeftOf.
+Variables v1 vn : list N.
+Variable g : gamma.
+
+Definition member (c : N) : Prop := g c <> Grey /\ In c v1 /\ In c vn.
+
+Lemma before_neg r a b : In a r -> In b r -> a <> b -> before r a b = negb (before r b a).
+Proof.
+  intros Ha Hb Hne. destruct (before r b a) eqn:E.
+  - cbn. now apply before_asym.
+  - cbn. apply before_total; auto.
+Qed.
+
+Lemma left_of_antisym a b : member a -> member b -> a <> b -> left_of v1 vn g a b = negb (left_of v1 vn g b a).
+Proof.
+  intros (Ga & A1 & An) (Gb & B1 & Bn) Hne. unfold left_of.
+  destruct (g a), (g b); try congruence; try reflexivity.
+  - now apply before_neg.
+  - now apply before_neg.
+  - rewrite (before_neg vn a b An Bn Hne). reflexivity.
+Qed.
+
+Lemma left_of_trans a b c : member a -> member b -> member c -> a <> c ->
+  left_of v1 vn g a b = true -> left_of v1 vn g b c = true -> left_of v1 vn g a c = true.
+Proof.
+  intros (Ga & A1 & An) (Gb & B1 & Bn) (Gc & C1 & Cn) Hne. unfold left_of.
+  destruct (g a), (g b), (g c); try congruence; try reflexivity; try discriminate.
+  - apply before_trans.
+  - apply before_trans.
+  - intros H1 H2. apply negb_true_iff in H1, H2. apply negb_true_iff.
+    destruct (before vn a c) eqn:E; [|reflexivity].
+    destruct (N.eq_dec a b) as [->|Hab]; [congruence|]. destruct (N.eq_dec b c) as [->|Hbc]; [congruence|].
+    pose proof (before_total vn a b An Bn Hab H1) as Hba. pose proof (before_total vn b c Bn Cn Hbc H2) as Hcb.
+    pose proof (before_trans vn c b a Hcb Hba) as Hca. rewrite (before_asym _ _ _ Hca) in E. discriminate.
+Qed.
+End LeftOf.
+
+(* ============================================================================================== *)
+(* 3. the axis counts                                                                              *)
+(* ============================================================================================== *)
+Lemma filter_single (f : N -> bool) c t : NoDup t ->
+  length (filter (fun b => N.eqb b c && f b) t) = (if memb c t && f c then 1 else 0)%nat.
+Proof.
+  induction t as [|x t IH]; intros Hnd; [reflexivity|]. inversion Hnd as [|? ? Hnin Hnd']; subst.
+  cbn [filter memb existsb]. fold (memb c t). rewrite (N.eqb_sym c x). destruct (N.eqb x c) eqn:E.
+  - apply N.eqb_eq in E. subst x. cbn [andb orb]. destruct (f c) eqn:Ef; cbn [length].
+    + rewrite (IH Hnd'). assert (Hm : memb c t = false).
+      { destruct (memb c t) eqn:Em; [|reflexivity]. apply memb_In in Em. contradiction. }
+      rewrite Hm. reflexivity.
+    + rewrite (IH Hnd'). rewrite andb_false_r. reflexivity.
+  - cbn [andb orb]. now apply IH.
+Qed.
+
+Section Counts.
+Variables v1 vn : list N.
+Variable g : gamma.
+Let lo := left_of v1 vn g.
+
+Definition cnt (P : list N) (c : N) : nat := length (filter (fun b => negb (N.eqb b c) && lo c b) P).
+
+Lemma axis_count_closed P c : NoDup P ->
+  (forall a b, In a P -> In b P -> a <> b -> lo a b = negb (lo b a)) ->
+  axis_count v1 vn g P c = if memb c P then cnt P c else 0%nat.
+Proof.
+  unfold axis_count, cnt. fold lo. induction P as [|x t IH]; intros Hnd Hanti; [reflexivity|].
+  inversion Hnd as [|? ? Hnin Hnd']; subst. cbn [ordered_pairs]. rewrite filter_app, app_length.
+  rewrite IH; [|assumption|intros a b Ha Hb; apply Hanti; now right].
+  (* the pairs (x, b), b in t *)
+  assert (Hfirst : length (filter (fun ab : N * N => if lo (fst ab) (snd ab) then N.eqb (fst ab) c else N.eqb (snd ab) c)
+                                  (map (pair x) t))
+                   = length (filter (fun b => if lo x b then N.eqb x c else N.eqb b c) t)).
+  { clear. induction t as [|y t IH]; [reflexivity|]. cbn [map filter fst snd].
+    destruct (if lo x y then N.eqb x c else N.eqb y c); cbn [length]; now rewrite IH. }
+  rewrite Hfirst. cbn [memb existsb filter]. fold (memb c t). rewrite (N.eqb_sym c x).
+  destruct (N.eqb x c) eqn:Exc.
+  - apply N.eqb_eq in Exc. subst x. cbn [orb negb andb].
+    assert (Hm : memb c t = false) by (destruct (memb c t) eqn:Em; [apply memb_In in Em; contradiction|reflexivity]).
+    rewrite Hm, Nat.add_0_r. f_equal. apply filter_ext_in. intros b Hb.
+    assert (Hbc : N.eqb b c = false) by (apply N.eqb_neq; intros ->; contradiction).
+    rewrite Hbc. cbn [negb andb]. destruct (lo c b); reflexivity.
+  - cbn [orb]. apply N.eqb_neq in Exc.
+    assert (E1 : length (filter (fun b => if lo x b then false else N.eqb b c) t)
+                 = length (filter (fun b => N.eqb b c && negb (lo x b)) t)).
+    { f_equal. apply filter_ext. intros b. destruct (lo x b), (N.eqb b c); reflexivity. }
+    rewrite E1, (filter_single (fun b => negb (lo x b)) c t Hnd').
+    cbn [negb andb].
+    destruct (memb c t) eqn:Em; cbn [andb].
+    + apply memb_In in Em. rewrite (Hanti c x (or_intror Em) (or_introl eq_refl) (not_eq_sym Exc)).
+      destruct (lo x c); cbn [negb length]; lia.
+    + reflexivity.
+Qed.
+
+Lemma cnt_perm P P' c : Permutation P P' -> cnt P c = cnt P' c.
+Proof. intros HP. unfold cnt. apply Permutation_length. now apply Permutation_filter. Qed.
+
+Lemma filter_length_lt (f h : N -> bool) l x :
+  (forall d, In d l -> f d = true -> h d = true) -> In x l -> h x = true -> f x = false ->
+  (length (filter f l) < length (filter h l))%nat.
+Proof.
+  intros Himp Hx Hhx Hfx. induction l as [|y t IH]; [destruct Hx|]. cbn [filter].
+  assert (Hle : forall t', (forall d, In d t' -> f d = true -> h d = true) -> (length (filter f t') <= length (filter h t'))%nat).
+  { clear. induction t' as [|z t' IH]; intros H; [cbn; lia|]. cbn [filter].
+    destruct (f z) eqn:Ef; [rewrite (H z (or_introl eq_refl) Ef); cbn; apply le_n_S; apply IH; intros d Hd; apply H; now right|].
+    destruct (h z); [cbn; apply le_S|]; apply IH; intros d Hd; apply H; now right. }
+  destruct Hx as [->|Hx].
+  - rewrite Hfx, Hhx. cbn [length]. apply Nat.lt_succ_r. apply Hle. intros d Hd. apply Himp. now right.
+  - assert (IH' := IH (fun d Hd => Himp d (or_intror Hd)) Hx).
+    destruct (f y) eqn:Ef; [rewrite (Himp y (or_introl eq_refl) Ef); cbn; lia|].
+    destruct (h y); cbn; lia.
+Qed.
+
+(* the count is strictly decreasing along left_of: the counts of distinct alternatives differ *)
+Lemma cnt_strict P a b : NoDup P -> (forall c, In c P -> member v1 vn g c) -> In a P -> In b P -> a <> b ->
+  lo a b = true -> (cnt P b < cnt P a)%nat.
+Proof.
+  intros Hnd Hmem Ha Hb Hne Hab. unfold cnt. apply (filter_length_lt _ _ P b).
+  - intros d Hd H. apply andb_true_iff in H. destruct H as (Hdb & Hbd). apply negb_true_iff, N.eqb_neq in Hdb.
+    assert (Hda : d <> a).
+    { intros ->. unfold lo in *. rewrite (left_of_antisym v1 vn g a b (Hmem a Ha) (Hmem b Hb) Hne), Hbd in Hab. discriminate. }
+    apply andb_true_iff. split; [now apply negb_true_iff, N.eqb_neq|].
+    unfold lo in *. apply (left_of_trans v1 vn g a b d); auto.
+  - assumption.
+  - apply andb_true_iff. split; [apply negb_true_iff, N.eqb_neq; congruence|assumption].
+  - rewrite N.eqb_refl. reflexivity.
+Qed.
+End Counts.
+
+(* two sorted arrangements of the same duplicate-free list under an injective key are equal *)
+Lemma sorted_perm_unique (key : N -> Z) l l' : NoDup l -> Permutation l l' ->
+  (forall a b, In a l -> In b l -> key a = key b -> a = b) ->
+  StronglySorted (fun a b => (key a <= key b)%Z) l -> StronglySorted (fun a b => (key a <= key b)%Z) l' -> l = l'.
+Proof.
+  revert l'. induction l as [|x t IH]; intros l' Hnd HP Hinj Hs Hs'.
+  - apply Permutation_nil in HP. now subst.
+  - destruct l' as [|y t']; [apply Permutation_sym, Permutation_nil in HP; discriminate|].
+    assert (Hxy : x = y).
+    { destruct (N.eq_dec x y) as [E|E]; [assumption|].
+      assert (Hy : In y t).
+      { assert (H : In y (x :: t)) by (eapply Permutation_in; [apply Permutation_sym; exact HP|now left]).
+        destruct H; [congruence|assumption]. }
+      assert (Hx : In x t').
+      { assert (H : In x (y :: t')) by (eapply Permutation_in; [exact HP|now left]). destruct H; [congruence|assumption]. }
+      inversion Hs as [|? ? _ H1]; subst. inversion Hs' as [|? ? _ H2]; subst. rewrite Forall_forall in H1, H2.
+      apply Hinj; [now left|now right|]. specialize (H1 y Hy). specialize (H2 x Hx). lia. }
+    subst y. f_equal. inversion Hnd; subst. inversion Hs; subst. inversion Hs'; subst.
+    apply IH; auto; [eapply Permutation_cons_inv; exact HP|]. intros a b Ha Hb. apply Hinj; now right.
+Qed.
+
+Lemma insert_by_map {A B} (h : A -> B) (key : B -> Z) x l :
+  insert_by key (h x) (map h l) = map h (insert_by (fun a => key (h a)) x l).
+Proof.
+  induction l as [|y t IH]; [reflexivity|]. cbn [map insert_by]. destruct (key (h x) <=? key (h y))%Z; [reflexivity|].
+  cbn [map]. now rewrite IH.
+Qed.
+
+Lemma sort_by_map {A B} (h : A -> B) (key : B -> Z) l :
+  sort_by key (map h l) = map h (sort_by (fun a => key (h a)) l).
+Proof. induction l as [|x t IH]; [reflexivity|]. cbn [map sort_by]. now rewrite IH, insert_by_map. Qed.
